@@ -9,6 +9,7 @@ V: histories with full issuance (fresh blind, nonce, challenge every time) and
    crypto/elliptic reference, and the issuer's returned key to equal the
    reference issuer-blinded key."""
 import vlib
+from checks import verdicts_common as vc
 from checks import attester_common as ac
 
 
@@ -16,6 +17,9 @@ def run(ctx):
     if ctx.thorough:
         ctx.prove("AttesterProofs")   # unbounded (TLAPS) versions of the model-level invariants TLC checks below
     n, cases, kinds, steps, nbeh = ac.run(ctx, "Trace_Attester_C08.cfg", ["index", "random"], 0)
+    # Verdicts.tla: every history of honest and refused requests on one long-lived issuer; an answer is sound only if the
+    # issuer-blinded request key is the reference's for THAT request (the value the origin ID is derived from)
+    vn, vcases, vdepth = vc.run(ctx, ["t3issue"])
     ids = sum(1 for c in cases for s in c["steps"] if s.get("k") == "F")
     return ctx.finish({
         "traces_validated_against_impl": len(cases),
@@ -25,6 +29,7 @@ def run(ctx):
         "rule": "evaluations = FinalizeIndex calls, each with a fresh random request blind; the index-stability history repeats "
                 "every (client, origin) pair with fresh blind/nonce/challenge through full issuance; distinct = distinct histories",
         "histories_by_kind": kinds,
+        **vc.coverage(vn, vcases, vdepth),
         "samples": [ac.short(c) for c in vlib.sample(cases, 2)],
         "exhaustive": False,
     }, [
@@ -35,4 +40,6 @@ def run(ctx):
 
 
 def replay(ctx, path):
+    if vlib.json.load(open(path)).get("family") == "verdicts":
+        return vc.replay(ctx, path)
     return ctx.replay_case(path, "attester", "Trace_Attester", cfg="Trace_Attester_C08.cfg")
